@@ -35,6 +35,8 @@ def strat(tier):
             "drop_clefs": st.sampled_from(["none", "none", "none", "first-per-staff", "all"]),
             "musical": st.booleans(),
             "number_offset": st.integers(0, 3),
+            # first measure numbered 0 (the usual number of a pickup, zero-based numbering), 1 or higher
+            "number_shift": st.sampled_from([-1, -1, 0, 0, 0, 3]),
         }
     )
 
@@ -74,7 +76,7 @@ def oracle(spec):
                 keep.append(c)
             seen.add(c[1])
         clefs = keep
-    measures = [[m[0], m[1], m[2] + spec["number_offset"] * (i + 1), m[3]] for i, m in enumerate(ps["measures"])]
+    measures = [[m[0], m[1], m[2] + spec.get("number_shift", spec["number_offset"]) + spec["number_offset"] * i, m[3]] for i, m in enumerate(ps["measures"])]
     ps["timesigs"], ps["keysigs"], ps["clefs"], ps["measures"] = tsigs, ksigs, clefs, measures
     part, _ = build_part(ps)
     musical = spec["musical"]
@@ -99,6 +101,7 @@ def oracle(spec):
     o.cls("no-key-signature", not ksigs)
     o.cls("no-clef-at-all", not clefs)
     o.cls("pickup", ps["pickup"] is not None)
+    o.cls("measure-numbered-0", any(m[2] == 0 for m in measures))
     o.cls("musical-beat-mode", musical)
 
     # ---- time signatures ---------------------------------------------------------------
@@ -235,6 +238,6 @@ SUBCHECKS = [
         strategy=strat,
         budget={"quick": 200, "thorough": 5000},
         rule="generated parts (0-n time/key signatures, clefs on 1-3 staves incl. staves without clef and no clef at all, irregular measures, pickups, first element late or missing, notated/musical beat mode); six maps queried at every integer position as scalar and array; non-trivial = an element changes where no note starts or a query lies before the first element of its kind",
-        floors={"single-late-time-signature": 0.02, "no-clef-at-all": 0.03, "staff-without-clef": 0.03, "pickup": 0.05},
+        floors={"single-late-time-signature": 0.02, "no-clef-at-all": 0.03, "staff-without-clef": 0.03, "pickup": 0.05, "measure-numbered-0": 0.1},
     ),
 ]
